@@ -45,6 +45,8 @@ CONDITIONS = [
     {"name": "open-cursor+no-bootstrap-page", "backup": False, "bootstrap": False, "cursor": True},
     # the shared database lies directly in the system temporary directory (e.g. it was created by a parent Wtp() without db_path)
     {"name": "db-in-tempdir-root", "backup": False, "bootstrap": True, "tmproot": True},
+    # the backup is taken by a context that stays open on the path while the workers open it (and restore from the backup)
+    {"name": "backup-present+main-context-open", "backup": False, "bootstrap": True, "main_open": True},
 ]
 
 
@@ -266,7 +268,7 @@ def body(db, cursor=False):
     return b
 
 
-def run_one(tmpl, prefix, n, cursor=False, tmproot=False):
+def run_one(tmpl, prefix, n, cursor=False, tmproot=False, main_open=False):
     global SCHED
     import tempfile
     d = scratch_dir("c20x")
@@ -274,6 +276,13 @@ def run_one(tmpl, prefix, n, cursor=False, tmproot=False):
     try:
         for f in os.listdir(tmpl):
             shutil.copy(os.path.join(tmpl, f), os.path.join(d, f))
+        main = None
+        if main_open:
+            # the context that prepared the run takes the backup and stays open while the workers run (not scheduled)
+            main = Wtp(db_path=Path(d) / "t.db", quiet=True, quiet_output=True)
+            main.add_page("Stored by the preparing context", 0, "m")
+            main.db_conn.commit()
+            main.backup_db()
         s = Sched(n, prefix)
         SCHED = s
         if tmproot:
@@ -283,6 +292,19 @@ def run_one(tmpl, prefix, n, cursor=False, tmproot=False):
         finally:
             SCHED = None
             tempfile.tempdir = old_tmp
+            if main is not None:
+                # the context that stayed open goes on reading and writing after the workers have come and gone
+                try:
+                    pg = main.get_page("P", 0)
+                    main.add_page("Written afterwards", 0, "w")
+                    main.db_conn.commit()
+                    s.main_result = "ok" if (pg is not None and pg.body) else "page P is gone for the context that stayed open"
+                except Exception as e:
+                    s.main_result = type(e).__name__ + ": " + str(e)[:80]
+                try:
+                    main.close_db_conn()
+                except Exception:
+                    pass
         Wtp.get_page.cache_clear()
         try:
             s.final_table = table(d)
@@ -321,7 +343,7 @@ def explore(tmpl, n, bound, acc, cond, expected, before, report, part=(0, 1)):
     while stack:
         prefix = stack.pop()
         report(nexec)
-        s = run_one(tmpl, prefix, n, bool(cond.get("cursor")), bool(cond.get("tmproot")))
+        s = run_one(tmpl, prefix, n, bool(cond.get("cursor")), bool(cond.get("tmproot")), bool(cond.get("main_open")))
         if root and part[0] != 0:
             # another slice accounts for the root schedule; here it only yields this slice's share of the alternatives
             root = False
@@ -337,7 +359,13 @@ def explore(tmpl, n, bound, acc, cond, expected, before, report, part=(0, 1)):
             continue
         nexec += 1
         acc.case()
-        case = {"condition": cond["name"], "workers": n, "schedule": list(s.choices),
+        costs_all = preemption_costs(s)
+        npre = 0
+        for i_, (order_, last_, states_, _l) in enumerate(s.points):
+            if s.choices[i_] != 0 and last_ is not None and order_[0] == last_ and states_[0] == "ready":
+                npre += 1
+        # (preemptions: the restore race of known finding K09 needs at least one; without any the workers run one after the other)
+        case = {"condition": cond["name"], "workers": n, "schedule": list(s.choices), "preemptions": npre,
                 "labels": [p[3] for p in s.points][:60]}
         if s.choices[:len(prefix)] != prefix:
             acc.violation("replay_divergence", case, s.choices[:len(prefix)], prefix)
@@ -347,6 +375,8 @@ def explore(tmpl, n, bound, acc, cond, expected, before, report, part=(0, 1)):
             tr.add(hash((cfg, c)))
         outcome = [s.results, s.errors]
         acc.distinct("outcomes", outcome)
+        if getattr(s, "main_result", "ok") != "ok":
+            acc.violation("context_that_stayed_open_still_works", case, s.main_result, "reads and writes as before")
         if s.deadlock:
             acc.violation("no_deadlock", case, "all live workers blocked on database locks", "progress")
         for i in range(n):
@@ -392,7 +422,7 @@ def work(payload, skip, report):
     try:
         make_template(tmpl, cond)
         # what a single worker obtains, and the table it leaves
-        s1 = run_one(tmpl, [], 1, bool(cond.get("cursor")), bool(cond.get("tmproot")))
+        s1 = run_one(tmpl, [], 1, bool(cond.get("cursor")), bool(cond.get("tmproot")), bool(cond.get("main_open")))
         expected = s1.results[0]
         if s1.errors[0] is not None or expected is None:
             acc.violation("single_worker_baseline", {"condition": cond["name"]}, s1.errors[0], "a result")
@@ -421,9 +451,9 @@ def replay(case):
     out = []
     try:
         make_template(tmpl, cond)
-        s1 = run_one(tmpl, [], 1, bool(cond.get("cursor")), bool(cond.get("tmproot")))
+        s1 = run_one(tmpl, [], 1, bool(cond.get("cursor")), bool(cond.get("tmproot")), bool(cond.get("main_open")))
         expected = s1.results[0]
-        s = run_one(tmpl, case["schedule"], case["workers"], bool(cond.get("cursor")), bool(cond.get("tmproot")))
+        s = run_one(tmpl, case["schedule"], case["workers"], bool(cond.get("cursor")), bool(cond.get("tmproot")), bool(cond.get("main_open")))
         if s.deadlock:
             out.append({"oracle": "no_deadlock", "observed": "deadlock", "expected": "progress"})
         for i in range(case["workers"]):
@@ -479,8 +509,90 @@ def free_running(cond, nproc, rounds):
     return bad
 
 
+def sequential_processes(cond, nworkers=3):
+    """Deterministic part that needs REAL processes (what one process cannot model: each process maps the -shm file of a
+    database on its own): the preparing context optionally stays open; the workers are separate processes that run one
+    after the other; every one must get the single-process result, and the context that stayed open must go on working.
+    Returns a list of (oracle, observed, expected)."""
+    out = []
+    d = scratch_dir("c20s")
+    try:
+        make_template(d, dict(cond, backup=False))
+        db = Path(d) / "t.db"
+        expected = None
+        main = None
+        if cond.get("main_open") or cond["backup"]:
+            main = Wtp(db_path=db, quiet=True, quiet_output=True)
+            main.add_page("Stored by the preparing context", 0, "m")   # its write-ahead log is not empty when the workers come
+            main.db_conn.commit()
+            main.backup_db()
+            if not cond.get("main_open"):
+                main.close_db_conn()
+                main = None
+        import json as _json
+
+        def run_child():
+            r, w = os.pipe()
+            pid = os.fork()
+            if pid == 0:
+                try:
+                    os.close(r)
+                    try:
+                        ans = (body(db, bool(cond.get("cursor")))(), None)
+                    except BaseException as e:  # noqa: BLE001
+                        ans = (None, type(e).__name__ + ": " + str(e)[:100])
+                    with os.fdopen(w, "w") as f:
+                        _json.dump(ans, f, default=str)
+                finally:
+                    os._exit(0)
+            os.close(w)
+            with os.fdopen(r) as f:
+                data = f.read()
+            os.waitpid(pid, 0)
+            return tuple(_json.loads(data)) if data else (None, "worker process died")
+
+        for k in range(nworkers):
+            res, err = run_child()
+            if err is not None:
+                out.append(("sequential_worker_process_raises", {"worker": k, "error": err}, "no exception"))
+            elif expected is None:
+                expected = res
+            elif res != expected:
+                out.append(("sequential_worker_processes_agree", {"worker": k, "result": res}, expected))
+        if main is not None:
+            try:
+                pg = main.get_page("P", 0)
+                main.add_page("Written afterwards", 0, "w")
+                main.db_conn.commit()
+                if pg is None or not pg.body:
+                    out.append(("context_that_stayed_open_still_works", "page P is gone", "reads and writes as before"))
+            except Exception as e:
+                out.append(("context_that_stayed_open_still_works", type(e).__name__ + ": " + str(e)[:80], "reads and writes as before"))
+            try:
+                main.close_db_conn()
+            except Exception:
+                pass
+        Wtp.get_page.cache_clear()
+    finally:
+        shutil.rmtree(d, ignore_errors=True)
+    return out
+
+
+def work_sequential(payload, skip, report):
+    acc = Acc(PROP)
+    report(0)
+    cond = payload[1]
+    acc.case()
+    acc.count("sequential_process_runs")
+    for o, ob, ex in sequential_processes(cond):
+        acc.violation(o, {"condition": cond["name"], "workers": "3 processes, one after the other", "preemptions": 0}, ob, ex)
+    return acc
+
+
 def main(run):
     q = run.tier == "quick"
+    for cid, acc, hung in run_chunks(work_sequential, [("seq", c) for c in CONDITIONS], nproc=4, case_timeout=200):
+        run.acc.merge(acc)
     chunks = []
     for cond in CONDITIONS:
         chunks.append((cond, 2, 2))
@@ -506,6 +618,7 @@ def main(run):
                 "sandbox bootstrap page present/absent; database created through the default temporary path; workers holding a "
                 "get_all_pages() cursor open); scheduling points at every sqlite3 connect/execute/executescript/commit/"
                 "close/backup of the worker's own connection and at Path.exists/unlink/rename on the database and backup paths; "
+                "plus, for every condition, three worker PROCESSES run one after the other (with the preparing context still open where the condition says so); "
                 "a state is a distinct tuple (next operation and status of every worker) seen at a scheduling point, a transition a "
                 "distinct (state, chosen worker); every schedule is an execution of the real code on a fresh copy of the database "
                 "directory; prefix replay divergence is a hard error" % ("" if q else "; N=2 with <= 3; N=3 with <= 2"),
